@@ -15,12 +15,14 @@ import (
 	"time"
 	"unsafe"
 
+	"github.com/go-logr/logr"
 	corev1 "k8s.io/api/core/v1"
 	policyv1 "k8s.io/api/policy/v1"
 	storagev1 "k8s.io/api/storage/v1"
 	metav1 "k8s.io/apimachinery/pkg/apis/meta/v1"
 	"k8s.io/apimachinery/pkg/util/intstr"
 	"sigs.k8s.io/controller-runtime/pkg/client"
+	ctrllog "sigs.k8s.io/controller-runtime/pkg/log"
 
 	v1 "sigs.k8s.io/karpenter/pkg/apis/v1"
 	nodetermination "sigs.k8s.io/karpenter/pkg/controllers/node/termination"
@@ -34,7 +36,10 @@ import (
 	"verif/harness/world"
 )
 
-func init() { reg.Register("termination", Run) }
+func init() {
+	reg.Register("termination", Run)
+	ctrllog.SetLogger(logr.Discard()) // the controllers log through controller-runtime; nothing is judged from logs
+}
 
 const (
 	claimName = "nc-1"
@@ -100,6 +105,7 @@ type Behaviour struct {
 	Cfg   Cfg    `json:"cfg"`
 	Steps []Step `json:"steps"`
 	Tag   string `json:"tag"`
+	Idx   int    `json:"idx"`
 }
 
 type sim struct {
@@ -192,9 +198,13 @@ func (s *sim) unplan() {
 }
 
 // bracket runs one reconcile of a real controller between Begin/End events.
-func (s *sim) bracket(controller, object string, st Step, f func() (bool, error)) {
+func (s *sim) bracket(controller, object string, st Step, view trace.M, f func() (bool, error)) {
 	s.plan(controller, st)
-	s.w.Emit(trace.M{"e": "Begin", "controller": controller, "object": object, "stale": st.Stale})
+	if view == nil {
+		view = trace.M{"exists": false}
+	}
+	// view: the (possibly lagging) informer copy the reconcile was handed, for the eviction queue
+	s.w.Emit(trace.M{"e": "Begin", "controller": controller, "object": object, "stale": st.Stale, "view": view})
 	errS, panicked, requeue := "-", false, false
 	func() {
 		defer func() {
@@ -294,7 +304,7 @@ func (s *sim) step(st Step) error {
 			s.skip(st.A, "no-claim")
 			return nil
 		}
-		s.bracket(actLifecycle, claimName, st, func() (bool, error) {
+		s.bracket(actLifecycle, claimName, st, nil, func() (bool, error) {
 			r, err := s.lc.Reconcile(s.ctx, nc)
 			return r.Requeue || r.RequeueAfter > 0, err //nolint:staticcheck
 		})
@@ -304,7 +314,7 @@ func (s *sim) step(st Step) error {
 			s.skip(st.A, "no-node")
 			return nil
 		}
-		s.bracket(actTermination, nodeName, st, func() (bool, error) {
+		s.bracket(actTermination, nodeName, st, nil, func() (bool, error) {
 			r, err := s.term.Reconcile(injection.WithControllerName(s.ctx, actTermination), n)
 			return r.Requeue || r.RequeueAfter > 0, err //nolint:staticcheck
 		})
@@ -318,7 +328,7 @@ func (s *sim) step(st Step) error {
 			s.views[st.Pod] = p.DeepCopy()
 		}
 		obj := s.views[st.Pod].DeepCopy()
-		s.bracket(actQueue, st.Pod, st, func() (bool, error) {
+		s.bracket(actQueue, st.Pod, st, world.Abs(obj), func() (bool, error) {
 			r, err := s.queue.Reconcile(s.ctx, obj)
 			return r.Requeue || r.RequeueAfter > 0, err //nolint:staticcheck
 		})
@@ -448,6 +458,40 @@ func (s *sim) step(st Step) error {
 		}) {
 			s.skip(st.A, "no-claim")
 		}
+	case "DeadlineRel": // ... to D seconds after the NodeClaim's deletion timestamp
+		nc := claim()
+		if !w.Get(nc) || nc.DeletionTimestamp.IsZero() {
+			s.skip(st.A, "no-deleting-claim")
+			return nil
+		}
+		return s.step(Step{A: "Deadline", To: world.Sec(nc.DeletionTimestamp.Time) + st.D})
+	case "TickToDeadline": // move the clock to D seconds after (before, if negative) the NodeClaim's termination time
+		nc := claim()
+		ts, ok := "", false
+		if w.Get(nc) {
+			ts, ok = nc.Annotations[v1.NodeClaimTerminationTimestampAnnotationKey]
+		}
+		t, err := time.Parse(time.RFC3339, ts)
+		if !ok || err != nil {
+			s.skip(st.A, "no-deadline")
+			return nil
+		}
+		if target := t.Add(time.Duration(st.D) * time.Second); target.After(w.Clock.Now()) {
+			w.Clock.SetTo(target)
+		} else {
+			s.skip(st.A, "already-past")
+		}
+	case "TickPodStuck": // move the clock past the pod's deletion time plus the minute Karpenter waits for it
+		p := pod(st.Pod)
+		if !w.Get(p) || p.DeletionTimestamp.IsZero() {
+			s.skip(st.A, "no-terminating-pod")
+			return nil
+		}
+		if target := p.DeletionTimestamp.Time.Add(time.Duration(61+st.D) * time.Second); target.After(w.Clock.Now()) {
+			w.Clock.SetTo(target)
+		} else {
+			s.skip(st.A, "already-past")
+		}
 	case "Tick":
 		w.Clock.Step(time.Duration(st.D) * time.Second)
 	case "TickTo":
@@ -483,7 +527,7 @@ func RunOne(b Behaviour, tw *trace.Writer) error {
 	}
 	tw.Begin(trace.M{"module": "Termination", "claim": claimName, "node": nodeName, "tgp": b.Cfg.TGP, "instant": b.Cfg.Instant,
 		"podNames": names, "podPV": podPV, "dndDur": DndDurations, "stuckAfter": 60, "minDrain": int(nodetermination.MinDrainTime / time.Second),
-		"tag": b.Tag})
+		"tag": b.Tag, "idx": b.Idx})
 	w.Sink = tw.Emit
 	w.EnvCreate(world.NodeClass())
 	pool := world.NodePool(poolName)
